@@ -178,6 +178,28 @@ pub fn gen_random(seed: u64, idx: u64) -> Plan {
                 c.kind = ConnKind::Tls;
             }
         }
+        if r.chance(1, 2) {
+            // a client that goes away during the TLS handshake (the earliest
+            // "before the handler starts"), and a client that arrives later
+            let hello = crate::client_tls::recorded_client_hello();
+            let mut c = blank_conn(1900);
+            c.start_ms = r.range(0, 40);
+            let k = r.usize_in(0, hello.len() - 1);
+            if k > 0 {
+                c.steps.push(Step::Send { data: Blob(hello[..k].to_vec()), completes: None });
+            }
+            c.steps.push(Step::Sleep { ms: r.range(0, 30) });
+            c.steps.push(if r.chance(1, 2) { Step::Close } else { Step::Reset });
+            conns.push(c);
+            let mut b = blank_conn(1901);
+            b.kind = ConnKind::Tls;
+            b.start_ms = r.range(100, 3_000);
+            let w = WorkReq { nonce, steps: 1, step_ms: 5, panic_at: 0, resp_bytes: 10, body: None, chunked: None };
+            b.steps.push(Step::Send { data: Blob(w.bytes()), completes: Some(0) });
+            b.steps.push(Step::AwaitResponses { count: 1, max_ms: AWAIT_MS });
+            b.reqs.push(w.plan());
+            conns.push(b);
+        }
     }
     for c in conns.iter_mut() {
         fit_c2s(c);
@@ -623,6 +645,14 @@ pub fn check_c16(
             }
         }
         // rule 4: bystanders
+        if disrupted_at.is_none() && !has_panic && cp.kind == ConnKind::Tls {
+            if let Some(e) = obs.h2_err.iter().flatten().next() {
+                v.push(Violation {
+                    rule: "c16.bystander".into(),
+                    detail: format!("conn {ci}: a client that stayed (connecting at {} ms) could not complete its TLS handshake: {e}", cp.start_ms),
+                });
+            }
+        }
         if disrupted_at.is_none() && !has_panic {
             if let Some(e) = &obs.parse_err {
                 v.push(Violation {
